@@ -37,6 +37,15 @@ fn gens<G: AffineRepr>(curve: &str) {
             println!("GEN0 {} {} {} {}", curve, name, j, hex(&ser(&v[0])));
         }
     }
+    // high party indices (the chain label carries the party index as a little-endian u32)
+    let hp_n = 65538usize;
+    let hp = BulletproofGens::<G>::new(1, hp_n);
+    let hg: Vec<G> = hp.G(1, hp_n).copied().collect();
+    let hh: Vec<G> = hp.H(1, hp_n).copied().collect();
+    for j in [255usize, 256, 257, 65535, 65536, 65537] {
+        println!("GENHI {} G {} {}", curve, j, hex(&ser(&hg[j])));
+        println!("GENHI {} H {} {}", curve, j, hex(&ser(&hh[j])));
+    }
 }
 
 /// The fixture circuits.  `tweak` perturbs the statement on the verifier side:
